@@ -650,6 +650,34 @@ def DCase.model (c : DCase) : Option (List Fmt × List String × List (String ×
   | .error _ => none
   | .ok fmts => some (fmts, c.fields.map (·.1), derivedKinds c.userUnpack c.fields)
 
+/-! ### string annotations: the module namespace that `convert_to_payload` keeps up to date
+
+  A nested payload named by a STRING annotation is resolved by `get_type_hints` in the namespace of the defining module;
+  `convert_to_payload` publishes every converted class there under its `__name__`.  Classes are numbers. -/
+
+/-- what `convert_to_payload` does with the module attribute, as observed on the live code by the translator's probe -/
+inductive PublishPolicy
+  | always        -- `setattr(module, name, cls)` on every conversion
+  | onlyIfAbsent  -- only when the module has no attribute of that name yet
+  | unknown
+deriving Repr, DecidableEq, Inhabited
+
+abbrev Namespace := List (String × Nat)
+
+def publish (p : PublishPolicy) (ns : Namespace) (name : String) (cls : Nat) : Namespace :=
+  match p with
+  | .always => (name, cls) :: ns
+  | .onlyIfAbsent => if (alookup ns name).isSome then ns else (name, cls) :: ns
+  | .unknown => ns
+
+/-- `get_type_hints`: the class a string annotation denotes -/
+def resolveName (ns : Namespace) (name : String) : Option Nat := alookup ns name
+
+/-- successive generations (class ids) that reuse one class name; each is converted (published) before its holder -/
+def publishAll (p : PublishPolicy) (name : String) : List Nat → Namespace → Namespace
+  | [], ns => ns
+  | c :: cs, ns => publishAll p name cs (publish p ns name c)
+
 /-! ### bytes: `Serializer.pack_serializable` is a fold over the pack list -/
 
 abbrev Bytes := List UInt8
